@@ -1,5 +1,7 @@
 import MJ.Proofs.MetaSim
 import MJ.Proofs.MetaNested
+import MJ.Proofs.MetaSet
+import MJ.Proofs.MetaArms
 import MJ.Gen.Tables
 /-!
 # C18 — `undeclared_variables` never omits a variable the template reads
@@ -10,6 +12,11 @@ choice tree: branches, iteration counts, `break`/`continue`, recursive loops re-
 `loop(..)`, blocks rendered in place and through `self.name()`, macro and call-block bodies,
 the name expressions of include/import/extends, re-entries nested to any depth `d`, renders
 that fail after any number of look-ups).
+
+`MJ/Model/MetaSet.lean`: macro and call-block bodies run where they are *called* (`readsM`:
+any statement can call any macro of the template, any number of times, nested and recursive),
+the frames of `Context::load`, file sets (`setLog`).  `MJ/Model/MetaArms.lean`: the arms of
+`track_walk` / `tracker_visit_expr` / `track_assign` as a table the walkers interpret.
 -/
 namespace MJ.C18
 open MJ.Meta
@@ -77,7 +84,7 @@ theorem abort_reads_prefix (K : Reenter) (rc : RC) (bt : BT) (top : Frame) (belo
   have hexec : ∀ a, exec K rc bt top below (Ch.mk n subs reqs a) s =
       exec K rc bt top below (Ch.mk n subs reqs 0) s := by
     intro a
-    cases s <;> simp [exec, Ch.n, Ch.subs, Ch.sub0]
+    cases s <;> simp [exec, Ch.n, Ch.subs, Ch.sub0, Ch.leak]
   simp only [execList, List.headD_cons, Ch.ab, Ch.reqs, List.tail_cons, hexec (k + 1),
     Nat.add_one_ne_zero, ne_eq, not_false_eq_true, if_true, not_true_eq_false, if_false,
     Nat.add_sub_cancel]
@@ -204,5 +211,188 @@ theorem analysis_no_panic (t : List Stmt) :
 example : (walkList St.init
     [.forLoop (.var "x") (.var "y") none false [.set (.var "z") .const] []]).bad = false :=
   (analysis_no_panic _).1
+
+
+/-! ## macros and call blocks called anywhere -/
+
+/-- `reads_subset_undeclared` for templates whose macros and call blocks run where they are
+called: while ANY statement runs — at top level, inside a loop, a block, another macro's or
+the macro's own body, after the names the macro mentions were rebound — the choice tree may
+call any macro or call block of the template (`caller` included) any number of times, nested
+to any depth `d`; both modes of the analysis.  Excluded: nothing of the template language;
+the model calls a macro with the closure `find_macro_closure` computes (the engine's closure
+object has at least these entries) and does not model values, so "which macro does this
+expression call" is over-approximated by "any". -/
+theorem reads_subset_undeclared_calls (t : List Stmt) (cs : List Ch) (d : Nat) (x : String)
+    (hx : x ∈ readsM t cs d) :
+    x ∈ findUndeclared t ∧ ∃ attrs, (x, attrs) ∈ findUndeclaredNested t := by
+  refine ⟨?_, ?_⟩
+  · have hflat : (walkList St.init t).nested = none := (step_walkList t St.init).nn rfl
+    exact (reported_none hflat x).1 (template_sound_calls t St.init rfl cs d x hx)
+  · obtain ⟨n, hn⟩ := (step_walkList t St.initNested).sn (n := []) rfl
+    have h := template_sound_calls t St.initNested rfl cs d x hx
+    simp only [St.reported, hn] at h
+    simpa [findUndeclaredNested, hn] using h
+
+/-- `{% set x = 1 %}{% macro m(a, b=q) %}{{ a }}{{ x }}{{ z }}{{ caller() }}{{ m() }}{% endmacro %}
+{% set x = 2 %}{% for i in ys %}{% call m(i) %}{{ i }}{{ w }}{% endcall %}{% endfor %}{{ m(y) }}`:
+the last statement calls `m` (after `x` was rebound), whose body calls the call block's
+`caller` (declared inside the loop, called after the loop has ended) and `m` again. -/
+example : ∃ t cs, readsM t cs 3 = ["m", "z", "q", "ys", "w", "y"]
+    ∧ findUndeclared t = ["y", "w", "ys", "m", "z", "q"] ∧ (macroDeclsL t).length = 2 :=
+  ⟨[.set (.var "x") .const,
+    .macro "m" ["a", "b"] [.var "q"]
+      [.emit (.var "a"), .emit (.var "x"), .emit (.var "z"), .emit (.call (.var "caller") []),
+       .emit (.call (.var "m") [])],
+    .set (.var "x") .const,
+    .forLoop (.var "i") (.var "ys") none false
+      [.callBlock (.var "m") [.pos (.var "i")] [] [] [.emit (.var "i"), .emit (.var "w")]] [],
+    .emit (.call (.var "m") [.pos (.var "y")])],
+   [.default, .default, .default,
+    .mk 2 [[.mk 0 [] [.mk 0 [[]] [] 0] 0]] [] 0,
+    .mk 0 [] [.mk 0 [[.default, .default, .default, .mk 0 [] [.mk 1 [[]] [] 0] 0,
+      .mk 0 [] [.mk 0 [[]] [] 0] 0]] [] 0] 0],
+   by decide, by decide, by decide⟩
+
+/-- What a macro call asks the context for does not depend on where it is called from: not on
+the frames at the call site, not on the loops running there. -/
+theorem macro_call_site_independent (mt : List MacroDecl) (K : Reenter) (bt : BT)
+    (rc rc' : RC) (top top' : Frame) (below below' : List Frame) (r : Ch)
+    (hlen : rc'.length = rc.length) (hm : rc.length + bt.length ≤ r.n) :
+    serveM mt K rc bt top below r = serveM mt K rc' bt top' below' r := by
+  unfold serveM
+  rw [hlen]
+  simp [Nat.not_lt.2 hm]
+
+example : serveM [⟨["a"], [], [.emit (.var "a"), .emit (.var "x")]⟩] (reenter 0) [] [] ["x"] []
+    (.mk 0 [[]] [] 0) = [] ∧
+    closureNames ["a"] [] [.emit (.var "a"), .emit (.var "x")] = ["x"] := by decide
+
+/-- … and the closure is what keeps it quiet: the same body `{{ a }}{{ x }}` run in a closure
+frame that lacks `x` asks the context for `x`, which the template
+`{% set x = 1 %}{% macro m(a) %}{{ a }}{{ x }}{% endmacro %}{{ m(1) }}` does not report (what the
+seeded changes C18-5 and C18-6 do to the engine / to `find_macro_closure`). -/
+example : (execList (reenter 0) [] [] ["a"] [[]] [] [.emit (.var "a"), .emit (.var "x")]).reads = ["x"]
+    ∧ (execList (reenter 0) [] [] ("a" :: macroFrame ["a"] [] [.emit (.var "a"), .emit (.var "x")]) [[]] []
+        [.emit (.var "a"), .emit (.var "x")]).reads = []
+    ∧ findUndeclared [.set (.var "x") .const,
+        .macro "m" ["a"] [] [.emit (.var "a"), .emit (.var "x")],
+        .emit (.call (.var "m") [.pos .const])] = [] := by decide
+
+/-- `Context::load` as modelled (`load`): with frames that carry no context on top of the one
+that does, the render context is asked (exactly once) iff no frame has the name among its
+locals, as its `loop` variable or in the closure it reads from — `Meta.bound` on the frames'
+names; the answer of the context and the globals (consulted last) play no role. -/
+theorem context_asked_iff_no_frame_resolves (has : String → Bool) (top : RFrame)
+    (below : List RFrame) (h : ∀ f ∈ top :: below, f.ctx = false) (x : String) :
+    (load has ((top :: below) ++ [RFrame.root]) x).1 =
+      if bound top.names (below.map RFrame.names) x then 0 else 1 :=
+  asks_iff_unbound has top below h x
+
+/-- a macro call `[closure frame (local a, closure {x}), base frame]`: `a` is a local, `x` comes
+from the closure although the context has it too, `y` is asked of the context and then found
+among the globals, `loop` is not special in a macro frame -/
+example :
+    let stack := [RFrame.macroCall ["a"] ["x"], RFrame.root]
+    let has := fun k => k == "x"
+    load has stack "a" = (0, .locals) ∧ load has stack "x" = (0, .closure) ∧
+    load has stack "y" = (1, .globals) ∧ load has stack "loop" = (1, .globals) ∧
+    load has [RFrame.loop ["i"], RFrame.root] "loop" = (0, .loopVar) := by decide
+
+/-- Source tie for the run-time side of closures: the order of the checks in `Context::load`,
+the frames `eval_macro` builds, and the code `compile_macro_expression` / `compile_macro` emit
+(closure analysis → `caller` flag → one `Enclose` per name → `BuildMacro` → `StoreLocal`;
+`Context::enclose` pins a name with its value or undefined) are as the model has them
+(regenerated from `vm/context.rs`, `vm/mod.rs`, `compiler/codegen.rs`). -/
+theorem closure_and_lookup_order_as_modelled :
+    loadOrder = MJ.Gen.c18LoadOrder ∧ macroCallFrames = MJ.Gen.c18MacroCallFrames ∧
+    macroCodegen = MJ.Gen.c18MacroCodegen := by decide
+
+example : "closure" ∈ MJ.Gen.c18LoadOrder ∧ "Enclose(each)" ∈ MJ.Gen.c18MacroCodegen := by decide
+
+/-! ## file sets -/
+
+/-- Templates that include / import / extend others: in ANY execution of a file set — any
+sequence of activations of the files' units (top level, block bodies, macros), each entered
+with whatever frames the file running at that moment has built, each `include` leaving
+whatever names behind — every look-up is reported by the analysis of the file whose code
+performed it, in both modes.  Look-ups of included / imported / parent templates are theirs. -/
+theorem multi_file_sound (files : List (List Stmt)) (acts : List Activation) :
+    ∀ p ∈ setLog files acts, ∃ t, files[p.1]? = some t ∧ p.2 ∈ findUndeclared t ∧
+      ∃ attrs, (p.2, attrs) ∈ findUndeclaredNested t := by
+  intro p hp
+  simp only [setLog, List.mem_flatMap, List.mem_map] at hp
+  obtain ⟨a, _, x, hx, rfl⟩ := hp
+  cases ht : files[a.file]? with
+  | none => simp [Activation.reads, ht] at hx
+  | some t =>
+    refine ⟨t, rfl, ?_, ?_⟩
+    · have hflat : (walkList St.init t).nested = none := (step_walkList t St.init).nn rfl
+      exact (reported_none hflat x).1 (activation_sound files a t ht St.init rfl x hx)
+    · obtain ⟨n, hn⟩ := (step_walkList t St.initNested).sn (n := []) rfl
+      have h := activation_sound files a t ht St.initNested rfl x hx
+      simp only [St.reported, hn] at h
+      simpa [findUndeclaredNested, hn] using h
+
+/-- main = `{% extends "base" %}{% set x = 1 %}{% include "inc" %}{{ leaked }}{{ other }}
+{% block b %}{{ x }}{{ u }}{% endblock %}`, inc = `{{ x }}{{ inc_var }}{% set leaked = 1 %}`,
+base = `{{ base_var }}{% block b %}{{ base_b }}{% endblock %}`: main's top level (the include
+leaves `leaked` behind), inc entered with main's frame (`x` bound), base as the parent in
+main's root frame, main's block entered from base, and once more on its own
+(`render_block`, nothing bound). -/
+example : ∃ files acts,
+    setLog files acts = [(0, "other"), (0, "u"), (1, "inc_var"), (2, "base_var"), (2, "base_b"),
+      (0, "u"), (0, "x"), (0, "u")] ∧
+    files.map findUndeclared = [["u", "x", "other", "leaked"], ["inc_var", "x"], ["base_b", "base_var"]] :=
+  ⟨[[.extends .const, .set (.var "x") .const, .include .const, .emit (.var "leaked"),
+      .emit (.var "other"), .block "b" [.emit (.var "x"), .emit (.var "u")]],
+    [.emit (.var "x"), .emit (.var "inc_var"), .set (.var "leaked") .const],
+    [.emit (.var "base_var"), .block "b" [.emit (.var "base_b")]]],
+   [{ file := 0, unit := .top, cs := [.default, .default,
+        .mk 0 [[.mk 108 [] [] 0, .mk 101 [] [] 0, .mk 97 [] [] 0, .mk 107 [] [] 0, .mk 101 [] [] 0,
+          .mk 100 [] [] 0]] [] 0] },
+    { file := 1, unit := .top, top := ["x"] },
+    { file := 2, unit := .top, top := ["leaked", "x"] },
+    { file := 0, unit := .block 0, top := ["leaked", "x"] },
+    { file := 0, unit := .block 0 }],
+   by decide, by decide⟩
+
+/-! ## the arms of `meta.rs` -/
+
+/-- Source tie for the analysis itself: the operations of every arm of `track_walk`,
+`tracker_visit_expr` and `track_assign` — which children are visited, in which order, where
+the scope is pushed and popped, which names are assigned when — and the control skeletons of
+`Expr::Var`, `Expr::GetAttr` and of the helper functions, regenerated from `meta.rs`, are the
+tables of `MJ/Model/MetaArms.lean`. -/
+theorem analysis_arms_as_modelled :
+    renderRows modelWalkArms = MJ.Gen.c18TrackWalkArms ∧
+    renderRows modelExprArms = MJ.Gen.c18VisitExprArms ∧
+    renderRows modelAssignArms = MJ.Gen.c18TrackAssignArms ∧
+    renderRows modelHelpers = MJ.Gen.c18TrackerHelpers := by decide
+
+example : ("ForLoop", "", ["push", "visit @.iter", "assign_target @.target", "visit_opt @.filter_expr",
+    "assign_lit loop", "each @.body $1 [", "walk $1", "]", "pop", "push", "each @.else_body $1 [",
+    "walk $1", "]", "pop"]) ∈ MJ.Gen.c18TrackWalkArms := by decide
+
+/-- … and the model's walkers ARE the interpretation of those tables: a statement is walked by
+running the operations of its row (`runOps`), an expression whose row is a list of operations
+is visited by them (`opsLeaves`: the leaves in that order; `Var` and `GetAttr` are the two rows
+with logic), an assignment target is tracked by its row (`opsAtoms`). -/
+theorem walkers_interpret_arms :
+    (∀ st s, walk st s = runOps walkList s.view (stmtOps s) st ∧
+      ∃ cfg, (s.variant, cfg, Arm.ops (stmtOps s)) ∈ modelWalkArms) ∧
+    (∀ st t, walkList st t =
+      runOps walkList (fun f => if f = "children" then .stmts t else .unit) armTemplate st) ∧
+    (∀ e os, exprOps e = some os →
+      nvars e = opsLeaves e.view os ∧ (e.variant, "", Arm.ops os) ∈ modelExprArms) ∧
+    (∀ e, targetAtoms e = opsAtoms e.view (targetOps e)) := by
+  refine ⟨fun st s => ⟨walk_interprets_arm st s, stmtOps_row s⟩, walkList_interprets_template,
+    fun e os h => ⟨nvars_interprets_arm e os h, ?_⟩, targetAtoms_interprets_arm⟩
+  rcases exprOps_row e with ⟨os', h1, h2⟩ | ⟨h1, _⟩
+  · rw [h] at h1; cases h1; exact h2
+  · rw [h] at h1; cases h1
+
+example : stmtOps (.forLoop (.var "x") (.var "y") none false [] []) = armForLoop ∧
+    exprOps (.binop (.var "a") (.var "b")) = some eArmBinOp := ⟨rfl, rfl⟩
 
 end MJ.C18
